@@ -144,6 +144,48 @@ def scenario(exe, root, seed, stats):
             fail('after restoring the original bytes and scrub -p bad, stripes %s stay marked bad' % sorted(bad)[:5], desc, st)
         if out:
             break
+    # --- silent errors next to files changed since the last sync: in a stripe where another disk holds a block of
+    # an unsynced file (touched or edited after the sync), a silent error of a synced file is still a data error:
+    # reported at its own position/disk/file and the stripe marked bad; stripes whose only differences come from
+    # the unsynced files are not marked (C15), whatever the disk order and the arrival order of the readers
+    if not out and lay.blocks:
+        shutil.rmtree(a.root); shutil.copytree(backup, a.root, symlinks=True)
+        files = sorted(set((b['disk'], b['sub']) for b in lay.blocks))
+        unsynced = set()
+        for (d, sub) in files:
+            if rng.chance(1, 3):
+                p = a.path(d, os.fsdecode(sub)); st = os.lstat(p)
+                if rng.chance(1, 2):
+                    os.utime(p, ns=(st.st_atime_ns, st.st_mtime_ns + 1_000_000_007))       # time-stamp only
+                else:
+                    with open(p, 'r+b') as f:
+                        b0 = f.read(1); f.seek(0); f.write(bytes([b0[0] ^ 0x21]) if b0 else b'')
+                    os.utime(p, ns=(st.st_atime_ns, st.st_mtime_ns + 2_000_000_011))
+                unsynced.add((d, sub))
+        desc = ['%s/%r changed since the last sync' % x for x in sorted(unsynced)]
+        cand = [b for b in lay.blocks if (b['disk'], b['sub']) not in unsynced]
+        exp = set()
+        for _ in range(1 + rng.below(3)):
+            if not cand: break
+            x = rng.choice(cand)
+            if (x['pos'], x['disk'], x['sub']) in exp: continue
+            if fx.flip_data_block(a, rng, x):
+                exp.add((x['pos'], x['disk'], x['sub'])); desc.append('stripe %d: %s/%r block %d silently changed' % (x['pos'], x['disk'], x['sub'], x['idx']))
+        if exp and unsynced:
+            cache = rng.choice([[], ['--test-io-cache=1'], ['--test-io-cache=3']])
+            r = a.cmd('scrub', '-p', 'full', *cache); stats['runs'] += 1
+            stats['unsynced_neighbour_runs'] = stats.get('unsynced_neighbour_runs', 0) + 1
+            de, pe = fx.err_tags(r)
+            de_synced = set(x for x in de if (x[1], x[2]) not in unsynced)
+            if de_synced != exp:
+                fail('[unsynced-neighbour] scrub %s names data errors %s (symmetric difference) among the synced files' % (' '.join(cache), sorted(de_synced ^ exp)[:3]), desc, r)
+            bad, st = fx.bad_blocks(a)
+            need = set(p for p, _, _ in exp)
+            if not need <= bad:
+                fail('[unsynced-neighbour] scrub %s does not mark bad the stripes %s that hold a silent error of a synced file (other disks hold blocks of files changed since the sync)' % (' '.join(cache), sorted(need - bad)[:5]), desc, st)
+            spurious = bad - need
+            if spurious:
+                fail('[unsynced-neighbour] scrub %s marks bad the stripes %s whose only differences come from files changed since the last sync' % (' '.join(cache), sorted(spurious)[:5]), desc, st)
     shutil.rmtree(backup, ignore_errors=True)
     a.destroy()
     return out or None
